@@ -205,7 +205,12 @@ def loads(s: str, parser=None, grammar=None, decoder=None, **kwargs):
     if isinstance(s, bytes):
         # Someone passed us an old-style bytes sequence.  Although it isn't
         # a string, we can deal with it:
-        s = s.decode()
+        try:
+            s = s.decode()
+        except UnicodeDecodeError:
+            # As with a file, other data may follow the label: take what
+            # can be decoded.
+            s = decode_by_char(io.BytesIO(s))
 
     if parser is None:
         parser = OmniParser(grammar=grammar, decoder=decoder, **kwargs)
